@@ -138,6 +138,39 @@ impl Hist {
             IdRef::Base(k) => cl(k).base(),
             IdRef::SnapVersion(k) => cl(k).snap.map(|s| s.version).unwrap_or(Uuid::nil()),
             IdRef::Fresh(l) => crate::case::fresh_uuid(*l),
+            IdRef::Literal(u) => *u,
+        }
+    }
+
+    /// A run-independent name for an id: own chain positions (and, unless `own_only`, other
+    /// clients' chain positions) instead of the random ids the server issued.
+    pub fn label_id(&self, own: Uuid, id: Uuid, own_only: bool) -> String {
+        if id.is_nil() {
+            return "nil".into();
+        }
+        if let Some(p) = self.model.client(own).pos(id) {
+            return format!("own.v{p}");
+        }
+        if !own_only {
+            for (k, c) in self.clients.iter().enumerate() {
+                if let Some(p) = self.model.client(*c).pos(id) {
+                    return format!("c{k}.v{p}");
+                }
+            }
+        }
+        id.to_string()
+    }
+
+    /// Canonical text of an outcome (ids renamed, payloads hashed), for comparing two runs.
+    pub fn canon(&self, own: Uuid, o: &Outcome, own_only: bool) -> String {
+        let l = |id: &Uuid| self.label_id(own, *id, own_only);
+        match o {
+            Outcome::Accepted { id, urgency } => format!("Accepted({},{urgency:?})", l(id)),
+            Outcome::Conflict { latest } => format!("Conflict({})", l(latest)),
+            Outcome::Found { id, parent, data } => format!("Found({},{},{}B:{:016x})", l(id), l(parent), data.len(), hash_bytes(data)),
+            Outcome::Snapshot { id, data } => format!("Snapshot({},{}B:{:016x})", l(id), data.len(), hash_bytes(data)),
+            Outcome::Error { what } => format!("Error({what})"),
+            o => format!("{o:?}"),
         }
     }
 
@@ -776,4 +809,44 @@ pub fn run_history(case: &Case, backend: Backend, via: Via, or: Oracles, st: &mu
     st.sample(|| serde_json::json!({"backend": format!("{backend:?}"), "via": format!("{via:?}"), "case": case,
         "outcomes": h.steps.iter().map(|s| format!("{}:{}", s.op.kind(), s.outcome.class())).collect::<Vec<_>>()}));
     Ok(())
+}
+
+/// Execute a case and return one canonical line per op (for comparing runs with each other).
+/// `before`/`after` are called around every op with the history state.
+pub fn run_trace(
+    case: &Case,
+    backend: Backend,
+    via: Via,
+    honour_reopen: bool,
+    own_only: bool,
+    mut around: impl FnMut(&mut Hist, usize, &Op, bool) -> CheckResult,
+) -> Result<(Vec<String>, Hist), Fail> {
+    let mut h = Hist::new(case, backend, via, Oracles::default())?;
+    let mut lines = vec![];
+    let mut quiet = Stats::default();
+    quiet.frozen = true;
+    for (idx, op) in case.ops.iter().enumerate() {
+        around(&mut h, idx, op, false)?;
+        let n0 = h.steps.len();
+        match op {
+            Op::Reopen if !honour_reopen => {}
+            _ => h.step(idx, op, &mut quiet)?,
+        }
+        let line = if h.steps.len() > n0 {
+            let s = h.steps.last().unwrap();
+            format!("{}:{}", s.op.kind(), h.canon(s.client, &s.outcome, own_only))
+        } else {
+            match op {
+                Op::Reopen => "Reopen".to_string(),
+                Op::AgeSnapshot { c, .. } => {
+                    let cid = h.clients[*c as usize % h.clients.len()];
+                    format!("AgeSnapshot:{}", h.model.client(cid).snap.is_some())
+                }
+                _ => "?".to_string(),
+            }
+        };
+        lines.push(line);
+        around(&mut h, idx, op, true)?;
+    }
+    Ok((lines, h))
 }
